@@ -457,6 +457,7 @@ class StmtMixin:
         fi = FuncInfo(n.name, n, st.env.get("__module__"), None)
         fi.qualname = (outer.qualname if outer else "?") + ".<locals>." + n.name
         fi.cls = outer.cls if outer else None
+        st.env["__made_closure__"] = True
         st.env[n.name] = FuncRef(fi, closure=dict(st.env))  # snapshot; names bound later in the defining frame are found live (expr.lookup)
         return [("fall", None, st)]
 
